@@ -202,6 +202,13 @@ impl LookupRequest<SortAttributes, Universal2DBox> for SortLookup {
                             .opts
                             .current_epoch_with_scene(attributes.scene_id)
                             .unwrap()
+                    // expired tracks that are not collected yet are not idle tracks
+                    && !matches!(
+                        attributes
+                            .opts
+                            .baked(attributes.scene_id, attributes.last_updated_epoch),
+                        Ok(TrackStatus::Wasted)
+                    )
             }
         }
     }
